@@ -54,6 +54,7 @@ type Ctx struct {
 	goarch   string
 	eff      *effAnalysis
 	reg      *registry
+	tmpl     *fontTmpl
 }
 
 func (c *Ctx) load() {
